@@ -106,7 +106,8 @@ HARNESSES = [
                "history: capacity-1 table, 2 ascending adds (growth), translate, iterate"),
     dict(name="extent_sort", src="extent.c",
          funcs=["ext2fs_extent_translate", "extent_cmp"],
-         configs=[{"OP": 3, "NENT": 2, "NUM": n, "LOCBITS": 31} for n in (2, 3)] +
+         configs=[{"OP": 3, "NENT": 2, "NUM": 2, "LOCBITS": 31},
+                  {"OP": 3, "NENT": 2, "NUM": 3, "LOCBITS": 31, "_tier": "thorough"}] +
                  [{"OP": 5, "LOCBITS": 31}],
          unwind=6, backends=["default"], witness_per_config=True,
          bound="unsorted table of 2..3 runs, locations/lengths < 2^31 (extent_cmp returns the 64-bit difference as int); probe: all 2^64 values"),
@@ -143,7 +144,7 @@ HARNESSES = [
                  [{"NG": 17, "CONV": 2, "FL": 1, "_unwindset": gd_uw(17)},
                   {"NG": 17, "CONV": 1, "FL": 1, "_unwindset": gd_uw(17), "_tier": "thorough"}] +
                  [{"NG": 3, "CONV": d, "FL": fl, "_unwindset": gd_uw(3)} for d in (1, 2) for fl in (2, 3, 4, 5)],
-         unwind=4, witness_per_config=True, backends=["default"],
+         unwind=4, backends=["default"],
          bound="3 and 17 groups (17: the table grows from 1 to 2 descriptor blocks), 1 KiB blocks; all descriptor bytes, "
                "size, requested size, flags, reserved GDT count symbolic"),
     dict(name="eamove", src="eamove.c",
